@@ -39,6 +39,61 @@ func (e *Env) Dump() []string {
 	seq, _ := k.AuctionSeq.Peek(ctx)
 	out = append(out, fmt.Sprintf("ST Q %d", seq))
 	_ = k.Auction.Walk(ctx, nil, func(key uint64, a types.AuctionI) (bool, error) {
+		out = append(out, e.auctionLine(key, a))
+		return false, nil
+	})
+	_ = k.Bid.Walk(ctx, nil, func(key collections.Pair[uint64, uint64], b types.Bid) (bool, error) {
+		out = append(out, e.bidLine(key.K1(), key.K2(), b))
+		return false, nil
+	})
+	_ = k.AllowedBidder.Walk(ctx, nil, func(key collections.Pair[uint64, sdk.AccAddress], ab types.AllowedBidder) (bool, error) {
+		name := e.addrName(key.K2(), seq)
+		ok := ab.AuctionId == key.K1() && ab.Bidder == key.K2().String()
+		out = append(out, fmt.Sprintf("ST L %d %s %s %d", key.K1(), strings.TrimPrefix(name, "u"), ab.MaxBidAmount, b2i(ok)))
+		return false, nil
+	})
+	_ = k.VestingQueue.Walk(ctx, nil, func(key collections.Pair[uint64, time.Time], v types.VestingQueue) (bool, error) {
+		l := e.vqLine(v)
+		if !(v.AuctionId == key.K1() && v.ReleaseTime.Equal(key.K2())) {
+			l = l[:len(l)-1] + "0"
+		}
+		out = append(out, l)
+		return false, nil
+	})
+	return e.dumpRest(out, seq)
+}
+
+func (e *Env) vqLine(v types.VestingQueue) string {
+	enc := e.encAddrStr(v.Auctioneer)
+	u := "-1"
+	if strings.HasPrefix(enc, "0 ") {
+		u = enc[2:]
+	}
+	return fmt.Sprintf("ST V %d %s %s %d %s %d 1", v.AuctionId, encTime(v.ReleaseTime), u, denomIdx(v.PayingCoin.Denom), v.PayingCoin.Amount, b2i(v.Released))
+}
+
+func (e *Env) allowedLine(ab types.AllowedBidder) string {
+	enc := e.encAddrStr(ab.Bidder)
+	u := "-1"
+	if strings.HasPrefix(enc, "0 ") {
+		u = enc[2:]
+	}
+	return fmt.Sprintf("ST L %d %s %s 1", ab.AuctionId, u, ab.MaxBidAmount)
+}
+
+func (e *Env) bidLine(ka, kb uint64, b types.Bid) string {
+	ok := b.AuctionId == ka && b.Id == kb
+	enc := e.encAddrStr(b.Bidder)
+	u := "-1"
+	if strings.HasPrefix(enc, "0 ") {
+		u = enc[2:]
+	}
+	return fmt.Sprintf("ST B %d %d %s %d %s %d %s %d %d", ka, kb, u, int(b.Type), encDec(b.Price),
+		denomIdx(b.Coin.Denom), b.Coin.Amount, b2i(b.IsMatched), b2i(ok))
+}
+
+func (e *Env) auctionLine(key uint64, a types.AuctionI) string {
+	{
 		resok := a.GetSellingReserveAddress().Equals(types.SellingReserveAddress(key)) &&
 			a.GetPayingReserveAddress().Equals(types.PayingReserveAddress(key)) &&
 			a.GetVestingReserveAddress().Equals(types.VestingReserveAddress(key)) && a.GetId() == key
@@ -59,39 +114,16 @@ func (e *Env) Dump() []string {
 		for _, t := range base.EndTimes {
 			ends += " " + encTime(t)
 		}
-		out = append(out, fmt.Sprintf("ST A %d %d %s %d %s %d %s %d %s %s %s %d %s %s %s %s %s",
+		return fmt.Sprintf("ST A %d %d %s %d %s %d %s %d %s %s %s %d %s %s %s %s %s",
 			key, int(base.Type), e.encAddrStr(base.Auctioneer), b2i(resok), encDec(base.StartPrice),
 			denomIdx(base.SellingCoin.Denom), base.SellingCoin.Amount, denomIdx(base.PayingCoinDenom),
-			encScheds(base.VestingSchedules), encTime(base.StartTime), ends, int(base.Status), rem, minp, mp, maxr, rate))
-		return false, nil
-	})
-	_ = k.Bid.Walk(ctx, nil, func(key collections.Pair[uint64, uint64], b types.Bid) (bool, error) {
-		ok := b.AuctionId == key.K1() && b.Id == key.K2()
-		enc := e.encAddrStr(b.Bidder)
-		u := "-1"
-		if strings.HasPrefix(enc, "0 ") {
-			u = enc[2:]
-		}
-		out = append(out, fmt.Sprintf("ST B %d %d %s %d %s %d %s %d %d", key.K1(), key.K2(), u, int(b.Type), encDec(b.Price),
-			denomIdx(b.Coin.Denom), b.Coin.Amount, b2i(b.IsMatched), b2i(ok)))
-		return false, nil
-	})
-	_ = k.AllowedBidder.Walk(ctx, nil, func(key collections.Pair[uint64, sdk.AccAddress], ab types.AllowedBidder) (bool, error) {
-		name := e.addrName(key.K2(), seq)
-		ok := ab.AuctionId == key.K1() && ab.Bidder == key.K2().String()
-		out = append(out, fmt.Sprintf("ST L %d %s %s %d", key.K1(), strings.TrimPrefix(name, "u"), ab.MaxBidAmount, b2i(ok)))
-		return false, nil
-	})
-	_ = k.VestingQueue.Walk(ctx, nil, func(key collections.Pair[uint64, time.Time], v types.VestingQueue) (bool, error) {
-		ok := v.AuctionId == key.K1() && v.ReleaseTime.Equal(key.K2())
-		enc := e.encAddrStr(v.Auctioneer)
-		u := "-1"
-		if strings.HasPrefix(enc, "0 ") {
-			u = enc[2:]
-		}
-		out = append(out, fmt.Sprintf("ST V %d %s %s %d %s %d %d", key.K1(), encTime(key.K2()), u, denomIdx(v.PayingCoin.Denom), v.PayingCoin.Amount, b2i(v.Released), b2i(ok)))
-		return false, nil
-	})
+			encScheds(base.VestingSchedules), encTime(base.StartTime), ends, int(base.Status), rem, minp, mp, maxr, rate)
+	}
+}
+
+func (e *Env) dumpRest(out []string, seq uint64) []string {
+	ctx := e.ctx
+	k := e.k
 	_ = k.BidSeq.Walk(ctx, nil, func(key uint64, v uint64) (bool, error) {
 		out = append(out, fmt.Sprintf("ST S %d %d", key, v))
 		return false, nil
